@@ -13,6 +13,7 @@ import Driver.C20
 import Driver.C11
 import Driver.C12
 import Driver.C06
+import Driver.C13
 
 open Driver Relic.Model
 
@@ -26,6 +27,10 @@ structure Conf where
   ep2 : Option C11.Env := none
   pc : Option C12.Env := none
   cp : C06.State := {}
+  map : Option C13.Env := none
+  ebmap : Option C13.Eb.Env := none
+  edmap : Option C13.Ed.Env := none
+  ep2map : Option C13.Ext.Env := none
 
 def parseCfg (toks : List String) : Conf :=
   toks.foldl (fun c t =>
@@ -49,7 +54,15 @@ def dispatch (c : Conf) (op : String) (args : List String) (got : String) : Opti
     | some e => C11.handle e c.w op args got
     | none => none) <|> (match c.pc with
     | some e => C12.handle e c.w op args got
-    | none => none) <|> (C06.handle c.w c.cp c.ep op args got)
+    | none => none) <|> (C06.handle c.w c.cp c.ep op args got) <|> (match c.map with
+    | some e => C13.handle e c.size c.w op args got
+    | none => none) <|> (match c.ebmap with
+    | some e => C13.Eb.handle e op args
+    | none => none) <|> (match c.edmap with
+    | some e => C13.Ed.handle e op args got
+    | none => none) <|> (match c.ep2map with
+    | some e => C13.Ext.handle e op args got
+    | none => none)
 
 def processLine (c : Conf) (line : String) : String :=
   match line.splitOn " => " with
@@ -119,6 +132,55 @@ partial def loop (h : IO.FS.Stream) (out : IO.FS.Stream) (c : Conf) : IO Unit :=
       | none =>
         out.putStrLn (if got == "err" then "ok ep2_param-rejected" else "FAIL S model=[] spec=[parsable ep2_param] got=[" ++ got ++ "]")
         loop h out { c with ep2 := none }
+    | _ => out.putStrLn "skip"; loop h out c
+  else if line.startsWith "ep_map_param " then
+    -- C13: curve selection + the map constants the library derived; every constant is checked against its defining property
+    match line.splitOn " => " with
+    | [_, got] =>
+      match C13.parseEnv got with
+      | some e =>
+        let bad := C03.checkParam e.ep ++ C13.checkParam e
+        out.putStrLn (if bad.isEmpty then "ok ep_map_param" else "FAIL S model=[] spec=[" ++ String.intercalate ";" bad ++ "] got=[" ++ got ++ "]")
+        loop h out { c with ep := some e.ep, map := some e }
+      | none =>
+        out.putStrLn (if got == "err" then "ok ep_map_param-rejected" else "FAIL S model=[] spec=[parsable ep_map_param] got=[" ++ got ++ "]")
+        loop h out { c with ep := none, map := none }
+    | _ => out.putStrLn "skip"; loop h out c
+  else if line.startsWith "ep2_map_param " then
+    match line.splitOn " => " with
+    | [_, got] =>
+      match C13.Ext.parseEnv got with
+      | some e =>
+        let bad := C13.Ext.checkParam e
+        out.putStrLn (if bad.isEmpty then "ok ep2_map_param" else "FAIL S model=[] spec=[" ++ String.intercalate ";" bad ++ "] got=[" ++ got ++ "]")
+        loop h out { c with ep2map := some e }
+      | none =>
+        out.putStrLn (if got == "err" then "ok ep2_map_param-rejected" else "FAIL S model=[] spec=[parsable ep2_map_param] got=[" ++ got ++ "]")
+        loop h out { c with ep2map := none }
+    | _ => out.putStrLn "skip"; loop h out c
+  else if line.startsWith "ed_map_param " then
+    match line.splitOn " => " with
+    | [_, got] =>
+      match C13.Ed.parseEnv got with
+      | some e =>
+        let bad := C13.Ed.checkParam e
+        out.putStrLn (if bad.isEmpty then "ok ed_map_param" else "FAIL S model=[] spec=[" ++ String.intercalate ";" bad ++ "] got=[" ++ got ++ "]")
+        loop h out { c with edmap := some e }
+      | none =>
+        out.putStrLn (if got == "err" then "ok ed_map_param-rejected" else "FAIL S model=[] spec=[parsable ed_map_param] got=[" ++ got ++ "]")
+        loop h out { c with edmap := none }
+    | _ => out.putStrLn "skip"; loop h out c
+  else if line.startsWith "eb_map_param " then
+    match line.splitOn " => " with
+    | [_, got] =>
+      match C13.Eb.parseEnv got with
+      | some e =>
+        let bad := C13.Eb.checkParam e
+        out.putStrLn (if bad.isEmpty then "ok eb_map_param" else "FAIL S model=[] spec=[" ++ String.intercalate ";" bad ++ "] got=[" ++ got ++ "]")
+        loop h out { c with ebmap := some e }
+      | none =>
+        out.putStrLn (if got == "err" then "ok eb_map_param-rejected" else "FAIL S model=[] spec=[parsable eb_map_param] got=[" ++ got ++ "]")
+        loop h out { c with ebmap := none }
     | _ => out.putStrLn "skip"; loop h out c
   else if line.startsWith "fp_param " then
     -- the running library reports the active field; the derived constants are checked here
